@@ -48,6 +48,7 @@ impl Pattern {
 }
 
 /// Terminal indices: 0..3 positional, 3 leaf, 4 other-variant-before, 5 other-variant-after, 6 end marker.
+pub const LONG_MAX: usize = 13;
 pub const T_LEAF: u8 = 3;
 pub const T_BEFORE: u8 = 4;
 pub const T_AFTER: u8 = 5;
@@ -65,7 +66,7 @@ pub fn build(p: &Pattern) -> (Grammar, Presentation, usize) {
         .iter()
         .enumerate()
         .map(|(i, s)| match s {
-            FieldSym::T => Sym::T(i as u8),
+            FieldSym::T => Sym::T((i % 3) as u8),
             FieldSym::N => Sym::N(leaf),
             FieldSym::R => Sym::N(pn),
         })
@@ -124,6 +125,37 @@ pub fn patterns(max_fields: usize, with_recursion: bool) -> Vec<Pattern> {
                             out.push(Pattern { kind, named, syms: syms.clone(), skip_mask: mask, inner });
                         }
                     }
+                }
+            }
+        }
+    }
+    out
+}
+
+/// Long fieldsets (4..=max_len symbols): the exhaustive space stops at 3 fields, but code that treats
+/// field indices as text ("t10" < "t2"), or that special-cases counts, needs two-digit positions.
+/// Terminal fields cycle through three terminals (all with the same payload type in C02, so a permutation
+/// still type-checks there and only the tree comparison can see it), every third field is a nonterminal.
+pub fn long_patterns(max_len: usize) -> Vec<Pattern> {
+    let mut out = vec![];
+    for (len, shape) in (4..=max_len).flat_map(|l| (0..3).map(move |s| (l, s))) {
+        // shape 0: mixed (every third field a nonterminal); 1: terminals only; 2: nonterminals only -
+        // with one type throughout, a permutation of the fields still compiles and only the tree shows it
+        let syms: Vec<FieldSym> = (0..len).map(|i| if shape == 2 || (shape == 0 && i % 3 == 2) { FieldSym::N } else { FieldSym::T }).collect();
+        if shape != 0 && len < 10 && len != 5 {
+            continue;
+        }
+        let all: u32 = (1u32 << len) - 1;
+        let masks = [0u32, all, 0x5555_5555 & all, 0xAAAA_AAAA & all, all & !1, all & !(1 << (len - 1)), 1, 1 << (len - 1), 0b110 & all];
+        for kind in [Kind::Struct, Kind::MiddleVariant] {
+            for named in [false, true] {
+                let mut seen = vec![];
+                for m in masks {
+                    if seen.contains(&m) {
+                        continue;
+                    }
+                    seen.push(m);
+                    out.push(Pattern { kind, named, syms: syms.clone(), skip_mask: m, inner: len % 2 == 0 });
                 }
             }
         }
